@@ -441,70 +441,73 @@ class FuncTempo:
         return self.timestamp_at_tick(tick)[0]
 
 
-def note_event_dataflow(i0: int, u0: int, i1: int, u1: int, tick: int, R: int, tb: int,
-                        hint_in: int, spc_in: int, spc_out: int, has_prev: bool) -> bool:
+import os as _os2  # noqa: E402
+
+IDX2 = [int(x) for x in _os2.environ.get("VF_IDX2", "0,1").split(",")]    # concrete indices of the two lines
+
+
+def note_event_dataflow(u0: int, u1: int, tick: int, gap: int, R: int, tb: int,
+                        hint_in: int, sp_s: int, sp_l: int, has_prev: bool, pchord: bool) -> bool:
     """
-    pre: _sus_pre(2, [i0, i1, 0, 0], [u0, u1, 0, 0])
-    pre: tick >= 0 and tb > 0
-    pre: 0 <= hint_in <= 1 and (hint_in == 0 or tick >= tb) and spc_in >= 0
+    pre: _sus_pre(2, [IDX2[0], IDX2[1], 0, 0], [u0, u1, 0, 0])
+    pre: tick >= 0 and tb > 0 and gap >= 1 and R >= 1 and sp_s >= 0 and sp_l >= 0
+    pre: 0 <= hint_in <= 1 and (hint_in == 0 or tick >= tb)
+    pre: has_prev or 5 not in IDX2
     post: _
     """
-    # the hint handed in is valid for this tick (as the builder loop guarantees for sorted input)
+    i0, i1 = IDX2
+    pni = 1 if pchord else 0
+    # one note event built from two lines through the real NoteEvent.from_parsed_data and its real
+    # collaborators; only the tempo map is a functional stand-in (FuncTempo).  Everything is compared
+    # with the property's own definitions - nothing about how the implementation gets there.
     idx, sus = [i0, i1], [u0, u1]
     datas = [PD(tick=tick, note_track_index=nti(idx[k]), sustain=sus[k]) for k in range(2)]
     tempo = FuncTempo(R, tb)
-    sp_events = [object()]
+    phrases = [mk_sp(sp_s, sp_l)]
     prev = None
+    pnote = [Note.G, Note.RY, Note.OPEN][pni]
     if has_prev:
-        prev = NoteEvent(tick=0, timestamp=AbsTime(0), end_timestamp=AbsTime(0), note=Note.G,
+        prev = NoteEvent(tick=tick - gap, timestamp=AbsTime(0), end_timestamp=AbsTime(0), note=pnote,
                          hopo_state=HOPOState.STRUM)
-    hopo_calls, sp_calls = [], []
-    sp_sentinel = StarPowerData(star_power_event_index=7)
-
-    def rec_hopo(*a):
-        hopo_calls.append(a)
-        return HOPOState.HOPO
-
-    def rec_sp(tick_, events_, *, proximal_star_power_event_index=0):
-        sp_calls.append((tick_, events_, proximal_star_power_event_index))
-        return sp_sentinel, spc_out
-
-    saved_h = NoteEvent.__dict__["_compute_hopo_state"]
-    saved_s = NoteEvent.__dict__["_compute_star_power_data"]
-    try:
-        NoteEvent._compute_hopo_state = staticmethod(rec_hopo)
-        NoteEvent._compute_star_power_data = staticmethod(rec_sp)
-        with H.patched(*H.unwrap_caches()):
-            ev, bc, sc = NoteEvent.from_parsed_data(
-                datas, prev, sp_events, tempo,
-                proximal_bpm_event_index=hint_in, star_power_event_index=spc_in)
-            want_note = Note.from_parsed_datas(datas)
-            want_sus = I.complex_sustain_from_parsed_datas(datas)
-    finally:
-        NoteEvent._compute_hopo_state = saved_h
-        NoteEvent._compute_star_power_data = saved_s
-    mx = None
+        if tick - gap < 0:
+            return True
+    with H.patched(*(H.unwrap_caches() + [(chartparse.tick, "note_duration_to_ticks", _triplet_summary)])):
+        ev, bc, sc = NoteEvent.from_parsed_data(datas, prev, phrases, tempo,
+                                                proximal_bpm_event_index=hint_in, star_power_event_index=0)
+    lanes = [0] * 5
+    lane_len = [None] * 5
+    open_len = None
     for k in range(2):
-        if idx[k] <= 4 or idx[k] == 7:
-            if mx is None or sus[k] > mx:
-                mx = sus[k]
-    ok = len(hopo_calls) == 1 and len(sp_calls) == 1
-    if not ok:
-        return done(False)
-    # start time = tempo-map time of the own tick, end time = that of tick + longest sustain
-    ok = ok and ev.tick == tick and ev.timestamp.us == tempo.F(tick) and ev.end_timestamp.us == tempo.F(tick + mx)
-    # the cursor handed back must be usable for the next (later) note: not beyond this tick's index
-    ok = ok and 0 <= bc and bc <= tempo.G(tick) and sc == spc_out
-    ok = ok and ev.note is want_note and ev.sustain == want_sus and type(ev.sustain) is type(want_sus)
-    ok = ok and ev.hopo_state is HOPOState.HOPO and ev.star_power_data is sp_sentinel
-    # flags and collaborators' arguments
-    h = hopo_calls[0]
-    is_tap = idx[0] == 6 or idx[1] == 6
-    is_forced = idx[0] == 5 or idx[1] == 5
-    ok = ok and len(h) == 6 and h[0] == R and h[1] == tick and h[2] is want_note
-    ok = ok and h[3] == is_tap and h[4] == is_forced and h[5] is prev
-    s = sp_calls[0]
-    ok = ok and s[0] == tick and s[1] is sp_events and 0 <= s[2] and s[2] <= spc_in
+        if idx[k] <= 4:
+            lanes[idx[k]] = 1
+            lane_len[idx[k]] = sus[k]
+        elif idx[k] == 7:
+            open_len = sus[k]
+    mx = open_len
+    for x in lane_len:
+        if x is not None and (mx is None or x > mx):
+            mx = x
+    ok = ev.tick == tick and tuple(ev.note.value) == tuple(lanes)
+    ok = ok and ev.timestamp.us == tempo.F(tick) and ev.end_timestamp.us == tempo.F(tick + mx)
+    ok = ok and ev.longest_sustain == mx and ev.end_tick == tick + mx
+    # cursors handed back are usable for any later note
+    ok = ok and 0 <= bc <= tempo.G(tick) and 0 <= sc <= 0
+    # strum / HOPO / tap by the rule of C04
+    tap = idx[0] == 6 or idx[1] == 6
+    forced = idx[0] == 5 or idx[1] == 5
+    if tap:
+        want = HOPOState.TAP
+    elif not has_prev:
+        want = HOPOState.STRUM
+    else:
+        natural = sum(lanes) <= 1 and tuple(lanes) != tuple(pnote.value) and 3 * gap <= R + 1
+        want = HOPOState.HOPO if natural != forced else HOPOState.STRUM
+    ok = ok and ev.hopo_state is want
+    # star power by the half-open rule of C05
+    if sp_s <= tick and tick < sp_s + sp_l:
+        ok = ok and ev.star_power_data is not None and ev.star_power_data.star_power_event_index == 0
+    else:
+        ok = ok and ev.star_power_data is None
     return done(ok)
 
 
